@@ -140,14 +140,15 @@ def _nonzero_sign_changes(x):
 
 
 def _element_rows(tam, prf, q):
-    """per stored row, evaluated by the harness from the packed state and the profile: rho_a - rho, the element
+    """per stored row, evaluated by the harness from the packed state and ITS OWN raw table of the scenario (not the
+    Profile object): rho_a - rho, the element
     temperature and the half-width b (the same formulas LagElement.update uses, l.3157-3176)"""
     sw = tam['seawater']
     cp = float(sw.cp())
     n = q.shape[0]
     dr, Te, b = np.zeros(n), np.zeros(n), np.zeros(n)
     for k in range(n):
-        Pa, Ta, Sa = prf.get_values(float(q[k, 9]), ['pressure', 'temperature', 'salinity'])
+        Pa, Ta, Sa = [scen_bpm.table_value(prf.verif_table, q[k, 9], nm) for nm in ('pressure', 'temperature', 'salinity')]
         T = q[k, 2] / (q[k, 0] * cp)
         S = q[k, 1] / q[k, 0]
         rho = sw.density(float(T), float(S), float(Pa))
@@ -185,6 +186,28 @@ def replay_python(q, dr, D, sd_max):
         if r:
             return k + 1, r
     return None, []
+
+
+_MOLAR = {}
+
+
+def _molar_mass(name):
+    """molar mass (kg/mol) from the harness's own parse of tamoc/data/ChemData.csv (column M, g/mol)"""
+    if not _MOLAR:
+        import os
+        import csv
+        import tamoc
+        path = os.path.join(os.path.dirname(tamoc.__file__), 'data', 'ChemData.csv')
+        with open(path) as fh:
+            rows = list(csv.reader(fh))
+        jM = rows[0].index('M')
+        for row in rows[3:]:
+            if row and row[0]:
+                try:
+                    _MOLAR[row[0]] = float(row[jM]) / 1000.
+                except ValueError:
+                    pass
+    return _MOLAR[name]
 
 
 CODE = {'neutral': 1, 'distance': 2, 'cap': 4, 'surface': 8, 'stall': 16}
@@ -269,6 +292,39 @@ def check_simulation(ctx, scn, bpm, prf, parts, tam):
                 ctx.violation('particle-heat-not-corrected', 'stored particle heat is neither that of a particle still exchanging heat (more than 0.5 K from the element) nor m*cp*T of the element temperature',
                               dict(base, particle=i, row=k, T_particle=float(Tp), T_element=float(Te[k])))
                 break
+    # ---- the first element against the scenario spec: particle class i holds mdot_i * w_ic * dt_fill of compound c (w = mass
+    # fraction from yk and the molar masses of ChemData.csv, parsed here), one common fill time dt_fill (= D / (5 Vj) for a
+    # jet), and its dissolved pool is empty when the water holds none of the compounds
+    fills = []
+    for i, sp in enumerate(scn['particles']):
+        a_, e_ = lay['particles'][i]['m']
+        if sp['kind'] == 'inert':
+            w = np.array([1.])
+        else:
+            M_ = np.array([_molar_mass(x) for x in sp['composition']])
+            w = np.array(sp['yk'], dtype=float) * M_
+            w = w / np.sum(w)
+        for c_ in range(e_ - a_):
+            if w[c_] > 0:
+                fills.append((i, c_, q[0, a_ + c_] / (sp['mdot'] * w[c_])))
+            elif q[0, a_ + c_] != 0.:
+                ctx.violation('first-element-vs-spec', 'a compound released with mole fraction 0 has a non-zero mass in the first element',
+                              dict(base, particle=i, compound_slot=c_, mass=float(q[0, a_ + c_])))
+    if fills:
+        dts = np.array([f[2] for f in fills])
+        dt0 = float(np.median(dts))
+        if scn['release']['Vj'] > 0:
+            dt0 = scn['release']['D'] / (5. * scn['release']['Vj'])
+        badf = [f for f in fills if not close(float(f[2]), dt0, 1e-9)]
+        if badf:
+            ctx.violation('first-element-vs-spec', 'the first element does not hold (mass flux of the class) x (mass fraction of the compound) x (one common fill time%s) of every particle compound'
+                          % (' D/(5 Vj)' if scn['release']['Vj'] > 0 else ''),
+                          dict(base, expected_fill_time=dt0, particle=badf[0][0], compound_slot=badf[0][1], implied_fill_time=float(badf[0][2])))
+    if not scn['profile'].get('background') and not (scn.get('append_later') or {}).get('background'):
+        a_, e_ = lay['chems']
+        if np.any(q[0, a_:e_] != 0.):
+            ctx.violation('first-element-vs-spec', 'the dissolved pool of the first element is not empty although the water holds none of the released compounds',
+                          dict(base, pool=[float(x) for x in q[0, a_:e_]]))
     # ---- compound totals ---------------------------------------------------------------------------------
     worst = 0.
     names = [str(x) for x in bpm.chem_names]
@@ -348,6 +404,16 @@ def check_simulation(ctx, scn, bpm, prf, parts, tam):
     # ---- stop reason ---------------------------------------------------------------------------------------
     rel = scn['release']
     kstop, reasons = replay_python(q, dr, float(bpm.D), float(rel['sd_max']))
+    if kstop != n - 1:
+        # the neutral-buoyancy test compares np.sign(rho_a - rho) of consecutive rows; a first element made of ambient
+        # water (pure multiphase release) has rho_a - rho == 0. EXACTLY in the code, while the harness's own table
+        # interpolation of P, T, S may differ from the code's in the last bit (|difference| ~ 1e-13 kg/m^3).  A density
+        # difference below 5e-12 kg/m^3 (a few units in the last place of rho) is therefore also tried as exactly zero; the ending must match one reading
+        dr_z = np.where(np.abs(dr) < 5e-12, 0., dr)
+        k2, r2 = replay_python(q, dr_z, float(bpm.D), float(rel['sd_max']))
+        if k2 == n - 1:
+            kstop, reasons, dr = k2, r2, dr_z
+            ctx.count('density-difference-read-as-exact-zero')
     if n < 2:
         ctx.violation('stopped-for-no-listed-reason', 'simulation returned without taking a step', dict(base))
     elif kstop is None:
@@ -632,7 +698,7 @@ def run(ctx, lean_ok):
             for i_, blk in c03.outside_nonzero(rs['qp'], rs['ps'], rs['lay']):
                 ctx.violation('outside-particle-contributes', 'a particle outside the plume has a non-zero derivative slot in a stored row', dict(case, particle=i_, block=blk))
             if np.all(np.isfinite(rs['qp'])):
-                for key, lhs, rhs, scale in c03.budgets(rs['qp'], c03._oracle_env(rs['env'], rs['ind']), rs['ps'], rs['lay']):
+                for key, lhs, rhs, scale in c03.budgets(rs['qp'], c03._oracle_env(rs['env'], rs['ind']), rs['ps'], rs['lay'], q=rs['q']):
                     if abs(lhs - rhs) > TOL['identity'] * scale + TOL['abs_floor']:
                         ctx.violation(key + '-budget', 'budget does not close on lmp.derivs of a stored row: %s' % key,
                                       dict(case, budget=key, lhs=float(lhs), rhs=float(rhs), scale=float(scale)))
